@@ -160,6 +160,9 @@ func AcceptOrdinalSaleListing(ctx context.Context, vla *ValidateListingArgs, aso
 	if err != nil {
 		return nil, err
 	}
+	if enough, err := tx.EstimateIsFeePaidEnough(asoa.FQ); err != nil || !enough { //nolint:govet // shadow
+		return nil, bt.ErrInsufficientFees
+	}
 
 	//nolint:dupl // TODO: are 2 dummies useful or to be removed?
 	for i, u := range asoa.UTXOs {
